@@ -268,6 +268,10 @@ func (ctrl *DefaultController) Import(ctx context.Context, stream chan ledger.Lo
 				case errors.Is(err, postgres.ErrNotFound):
 					// the log refers to a transaction or a schema that the stream did not create
 					return NewErrImport(fmt.Errorf("importing log %d: %w", *log.ID, err))
+				case errors.Is(err, ledgerstore.ErrTransactionReferenceConflict{}),
+					errors.Is(err, ledgerstore.ErrIdempotencyKeyConflict{}):
+					// the log uses again a reference or an idempotency key of an earlier log of the stream
+					return NewErrImport(fmt.Errorf("importing log %d: %w", *log.ID, err))
 				case errors.Is(err, postgres.ErrSerialization) ||
 					errors.Is(err, ledgerstore.ErrConcurrentTransaction{}):
 					return NewErrImport(errors.New("concurrent transaction occur" +
